@@ -152,7 +152,7 @@ func opsFor(round, k int, jt, pt, tt reflect.Type) []c09Op {
 			t := json.NewTokenizer([]byte(`[[1,2}`)) // ends with a mismatched closer
 			for t.Next() {
 			}
-			t.Reset(tokdoc) // the failed tokenizer is reused ...
+			t.Reset(tokdoc)                // the failed tokenizer is reused ...
 			u := json.NewTokenizer(tokdoc) // ... while another one is alive
 			for {
 				a, b := t.Next(), u.Next()
